@@ -56,14 +56,13 @@ pub fn salted_address(checksum: &[u8], creator: &str, salt: &[u8]) -> Option<Str
 
 pub fn store_codes(app: &mut TApp, codes: &[CodeS]) {
     for c in codes {
-        let contract = Scripted {
-            tag: c.tag,
-            has_sudo: c.has_sudo,
-            has_reply: c.has_reply,
-            has_migrate: c.has_migrate,
-            checksum: c.checksum.as_ref().map(|b| Checksum::from(<[u8; 32]>::try_from(b.as_slice()).unwrap())),
+        let checksum = c.checksum.as_ref().map(|b| Checksum::from(<[u8; 32]>::try_from(b.as_slice()).unwrap()));
+        let contract: Box<dyn cw_multi_test::Contract<CMsg, Empty>> = if c.wrapped {
+            wrapped::contract(c.tag, c.has_sudo, c.has_reply, c.has_migrate, checksum)
+        } else {
+            Box::new(Scripted { tag: c.tag, has_sudo: c.has_sudo, has_reply: c.has_reply, has_migrate: c.has_migrate, checksum })
         };
-        app.store_code_with_id(Addr::unchecked(c.creator.clone()), c.id, Box::new(contract)).unwrap();
+        app.store_code_with_id(Addr::unchecked(c.creator.clone()), c.id, contract).unwrap();
     }
 }
 
